@@ -115,6 +115,12 @@ static const XMLCh  gEndPI[] =
     chQuestion, chCloseAngle, chNull
 };
 
+//--
+static const XMLCh  gDoubleDash[] =
+{
+    chDash, chDash, chNull
+};
+
 //<?
 static const XMLCh  gStartPI[] =
 {
@@ -697,6 +703,11 @@ void DOMLSSerializerImpl::processNode(const DOMNode* const nodeToWrite, int leve
 
             ensureValidString(nodeToWrite, nodeName);
             ensureValidString(nodeToWrite, nodeValue);
+            // the data cannot contain "?>": it would end the PI early
+            if (lent > 0 && XMLString::patternMatch(nodeValue, gEndPI) != -1)
+            {
+                reportError(nodeToWrite, DOMError::DOM_SEVERITY_FATAL_ERROR, XMLDOMMsg::INVALID_CHARACTER_ERR);
+            }
 
             if(level == 1 && getFeature(FORMAT_PRETTY_PRINT_1ST_LEVEL_ID))
                 printNewLine();
@@ -1160,6 +1171,13 @@ void DOMLSSerializerImpl::processNode(const DOMNode* const nodeToWrite, int leve
                 break;
 
             ensureValidString(nodeToWrite, nodeValue);
+            // a comment cannot contain "--" nor end with "-": the output
+            // would not be well-formed
+            if (lent > 0 &&
+                (XMLString::patternMatch(nodeValue, gDoubleDash) != -1 || nodeValue[lent-1] == chDash))
+            {
+                reportError(nodeToWrite, DOMError::DOM_SEVERITY_FATAL_ERROR, XMLDOMMsg::INVALID_CHARACTER_ERR);
+            }
 
             // Figure out if we want pretty-printing for this comment.
             // If this comment node does not have any element siblings
